@@ -18,7 +18,8 @@ import tempfile
 from harness import core, inject, world as W
 
 RULE = ("entry points record_artifacts_as_dict, in_toto_run (with / without stream capture), in_toto_record_start / stop, "
-        "in_toto_match_products, in_toto_verify (with passing, failing and timed-out inspections) x base path by argument / "
+        "in_toto_match_products, in_toto_verify (zero, one, two inspections; passing, failing, timed-out; a step delegated to a "
+        "sublayout without inspections) x base path by argument / "
         "setting / none x an OSError injected at every audited file-system operation of the call in turn, plus input-triggered "
         "failures (prefix collision, missing base directory, missing ostree ref, bad key, failing inspection). Non-trivial: "
         "the call performs >= 3 audited operations; distinct by (entry point, shape, fault position).")
@@ -88,12 +89,26 @@ def make_calls(root):
         from in_toto.models.link import Link
         return rl.in_toto_match_products(Link(name="l", products={"x": {"sha256": "00"}}), paths=[base])
     calls["match_products"] = match
-    for label, action in (("verify/inspection_ok", "exit0"), ("verify/inspection_fails", "exit1"), ("verify/inspection_times_out", "sleep")):
-        calls[label] = _verify_call(root, action)
+    for label, (actions, sub) in VERIFY_SHAPES.items():
+        calls[label] = _verify_call(root, label.split("/", 1)[1], actions, sub)
     return calls
 
 
-def _verify_call(root, action):
+# label -> (action of each inspection of the verified layout, delegate the step to a sublayout without inspections?)
+VERIFY_SHAPES = {
+    "verify/inspection_ok": (["exit0"], False),
+    "verify/inspection_fails": (["exit1"], False),
+    "verify/inspection_times_out": (["sleep"], False),
+    "verify/no_inspections": ([], False),
+    "verify/two_inspections": (["exit0", "exit0"], False),
+    "verify/second_inspection_fails": (["exit0", "exit1"], False),
+    "verify/sublayout_no_inspections": ([], True),
+    "verify/sublayout_then_inspection_ok": (["exit0"], True),
+    "verify/sublayout_then_inspection_fails": (["exit1"], True),
+}
+
+
+def _verify_call(root, tag, actions, sub):
     def run():
         import in_toto.verifylib as vl
         import in_toto.settings as st
@@ -102,10 +117,15 @@ def _verify_call(root, action):
         from harness import scen
         import random
         rng = random.Random(3)
-        vroot = os.path.join(root, "v-" + action)
+        vroot = os.path.join(root, "v-" + tag)
         if not os.path.exists(vroot):
-            ch = scen.gen_chain(rng, vroot, n_steps=1, n_insp=1, thresholds=(1,), max_funcs=1, fmt_mode="metablock")
-            ch.inspections[0]["action"] = action
+            ch = scen.gen_chain(rng, vroot, n_steps=1, n_insp=len(actions), thresholds=(1,), max_funcs=1, fmt_mode="metablock",
+                                depth=1 if sub else 0, sub_prob=1.0 if sub else 0.0)
+            for insp, action in zip(ch.inspections, actions):
+                insp["action"] = action
+            for node, _path in scen.walk(ch):
+                if node is not ch:
+                    node.inspections = []
             scn = scen.build(ch, vroot, rng)
             scn.materialise(vroot)
             json.dump(scn.keys, open(os.path.join(vroot, "keys.json"), "w"))
@@ -114,7 +134,7 @@ def _verify_call(root, action):
         md = Metadata.load(os.path.join(vroot, "root.layout"))
         keys = json.load(open(os.path.join(vroot, "keys.json")))
         return vl.in_toto_verify(md, keys, link_dir_path=os.path.join(vroot, "links"), persist_inspection_links=False,
-                                 inspect_timeout=2 if action == "sleep" else 30)
+                                 inspect_timeout=2 if "sleep" in actions else 30)
     return run
 
 
@@ -139,8 +159,6 @@ def run_once(name, root, fault_at=None):
         # shapes that set a setting do so inside the call wrapper: take the snapshot after a dry assignment
         if name == "record/base_setting":
             st.ARTIFACT_BASE_PATH = os.path.join(root, "base")
-        if name.startswith("verify/"):
-            vroot = os.path.join(root, "v-" + name.split("_", 1)[1].replace("ok", "exit0").replace("fails", "exit1").replace("times_out", "sleep"))
         before = None
         with contextlib.redirect_stdout(io.StringIO()), contextlib.redirect_stderr(io.StringIO()):
             if name.startswith("verify/"):
@@ -244,6 +262,12 @@ def to_program(trace, inspection=False):
                     j2 += 1
                 items.append({"withCaptureFiles": {"seq": body}})
                 j = j2
+            elif inspection and kind.startswith("open") and path.endswith(".link") and "/links/" in path:
+                # load_links_for_layout treats a link file that cannot be opened as absent; whether the
+                # verification then fails is a matter of thresholds (C01/C05), not of the effect language
+                kinds.append("tolerated")
+                items.append("ioQuiet")
+                j += 1
             else:
                 kinds.append("quiet" if kind in ("os.scandir", "os.listdir") else "io")
                 items.append("ioQuiet" if kind in ("os.scandir", "os.listdir") else "io")
@@ -294,7 +318,7 @@ def run_shape(name):
             if kind == "restore":
                 res.count("restore_op_fault_not_judged")
             else:
-                if mk is not None:
+                if mk is not None and kind != "tolerated":
                     # a shape that fails for input reasons raises anyway
                     exp_raised = mk["raised"] or raised is not None
                     agreed = (raised_k is not None) == exp_raised
@@ -318,8 +342,7 @@ def run_shape(name):
 SHAPES_QUICK = ["record/base_arg", "record/base_arg_two_paths", "record/no_base", "record/collision", "record/missing_base",
                 "record/ostree_missing_ref", "record/dir", "record/base_setting", "run/streams", "run/no_streams",
                 "run/failing_command", "run/no_such_command", "run/unwritable_metadata_dir", "record_start",
-                "record_start_stop", "record_stop/no_preliminary", "match_products", "verify/inspection_ok",
-                "verify/inspection_fails", "verify/inspection_times_out"]
+                "record_start_stop", "record_stop/no_preliminary", "match_products"] + list(VERIFY_SHAPES)
 
 
 def run(tier, seed):
